@@ -114,6 +114,17 @@ func C12(r *h.Run) {
 				cts = append(cts, a[:i]+a[i+1:], a[:i]+"x"+a[i:], strings.ToUpper(a[:1])+a[1:], a+"; charset=utf-8", " "+a, a+" ", a+"+")
 			}
 			cts = append(cts, "", "application/", "application/connect+", "application/grpc+", "text/plain", "application/octet-stream", "application/connect", "application/grpc-web-text", "APPLICATION/GRPC", "application/x-protobuf")
+			// the bare codec names, and each advertised type with its prefix cut off at every '/' and '+'
+			for _, n := range names {
+				cts = append(cts, n, "+"+n, "/"+n)
+			}
+			for _, a := range advertised {
+				for i := 0; i < len(a); i++ {
+					if a[i] == '/' || a[i] == '+' || a[i] == '-' {
+						cts = append(cts, a[i+1:], a[:i])
+					}
+				}
+			}
 			for i := 0; i < 6; i++ {
 				cts = append(cts, string(rng.Bytes(rng.Intn(20))))
 			}
